@@ -303,12 +303,12 @@ def _missing_helpers(crate_dir, unit):
             break
     # new helper METHODS / associated functions of a type whose impl items are already under extraction
     meths = set(re.findall(r"no method named `([A-Za-z_0-9]+)` found for (?:reference|mutable reference|struct|enum) `&?(?:mut )?([A-Za-z_0-9]+)", p.stderr))
-    meths |= set(re.findall(r"no function or associated item named `([A-Za-z_0-9]+)` found for (?:struct|enum) `([A-Za-z_0-9]+)", p.stderr))
+    meths |= set(re.findall(r"no (?:function or associated item|associated function or constant) named `([A-Za-z_0-9]+)` found for (?:struct|enum) `([A-Za-z_0-9]+)", p.stderr))
     for n, ty in sorted(meths):
         path = "impl %s/fn %s" % (ty, n)
         if path in have:
             continue
-        for f in sorted(set(it["file"] for it in unit["items"] if it["path"].startswith("impl %s/" % ty))):
+        for f in sorted(set(it["file"] for it in unit["items"] if it["path"].startswith("impl %s/" % ty))) or sorted(set(it["file"] for it in unit["items"])):
             try:
                 src, m = B.read_repo(f)
                 rc.find(src, path, m)
